@@ -68,6 +68,7 @@ type Obl struct {
 
 // VC accumulates the verification condition of one function under contract.
 type VC struct {
+	anchorHit map[string]bool // contract key|assert/after|anchor -> matched at least one program point
 	eng       *Engine
 	U         *Universe
 	fn        *ssa.Function
